@@ -174,7 +174,12 @@ theorem write_never_lowers_revision (cfg : Cfg) (ow : Owner) (prev : List Prev) 
     (hinv : isController cfg.st (ow.ref true) cur = true → revNum cur.rev ≤ ow.rev) :
     (reconcileObject cfg ow prev p w).1.events = w.events ∨
     (revNum cur.rev ≤ ow.rev ∧ (appliedFor cfg ow p []).rev = ow.rev) := by
-  simp only [reconcileObject, hseen, reconcileObjectWith]
+  -- (nothing is written either when the cache read is refused: `CacheNotStartedError`)
+  by_cases hst : w.started p.kind = true
+  case neg =>
+    left
+    simp only [reconcileObject, hst, Bool.false_eq_true, ↓reduceIte]
+  simp only [reconcileObject, hst, ↓reduceIte, hseen, reconcileObjectWith]
   by_cases hc : isController cfg.st (ow.ref true) cur = true
   · right; exact ⟨hinv hc, rfl⟩
   · have hc' : isController cfg.st (ow.ref true) cur = false := by simpa using hc
@@ -222,10 +227,10 @@ example :
     let obj : Obj := { (default : Obj) with uid := 3, rv := 3, owners := [o1.ref true], rev := .num 1, cacheLabel := true, payload := "x" }
     let st : Store := { objs := fun k => if k.name = "a" then some obj else none, nextUID := 4, nextRV := 4 }
     let w : World := { store := st, writes := 0, env := [], events := [] }
-    let w2 := (reconcileObject cfg o2 [⟨"ObjectSet", "os1", "uid-1", []⟩] a w).1
+    let w2 := (reconcilePhaseObject cfg o2 [⟨"ObjectSet", "os1", "uid-1", []⟩] a w).1
     let after := (w2.store.get ⟨"NsThing", "ns1", "a"⟩).getD default
     after.owners = [o1.ref false, o2.ref true] ∧ after.rev = .num 2 ∧
-    (reconcileObject cfg o1 [] a w2).1.events = w2.events := by
+    (reconcilePhaseObject cfg o1 [] a w2).1.events = w2.events := by
   exact ⟨rfl, rfl, rfl⟩
 
 end Pko.Props.C02
